@@ -432,7 +432,10 @@ class ValueOracle(Observer):
             # base
             b = t.base
             if i.ids is None:
-                if b is not None:
+                # (a composite such as multi_matmul may hand out a view of an internal result, as its
+                # NumPy namesake does: then .base is that hidden tensor, the owner of the memory)
+                hidden_owner = b is not None and s.base is not None and d.base is not None and b.base is None and b.data.size and np.shares_memory(b.data, d) and not any(b is x for x in w.T.values())
+                if b is not None and not hidden_owner:
                     if w.violation(self.prop, "C04.base", f"step {w.nstep} ({evt}): handle {h} owns its memory but .base is not None", tag=f"C04.base/owner_has_base/{evt}"):
                         return
             else:
